@@ -365,7 +365,7 @@ func (e *Env) pkgObject(pkgPath, name string) (Val, bool) {
 			return boolVal(strconv.FormatBool(constant.BoolVal(obj.Val()))), true
 		}
 	case *types.Var:
-		if isErrorType(obj.Type()) {
+		if isErrorType(obj.Type()) || isSentinelErrType(obj.Type()) {
 			return Val{S: "Int", T: fc.B.Sentinel(pkgPath, name), Typ: obj.Type()}, true
 		}
 		// read-only globals with known initialisers
@@ -656,6 +656,9 @@ func (e *Env) callExpr(n *ECall) Val {
 				}
 			}
 			return e.fail("store(ctx): receiver has no storeService/storeKey field")
+		case "withKV":
+			w := argv(0)
+			return Val{S: "WorldS", T: "(mkW (store (w_kv " + w.T + ") " + svcID(argv(1)) + " " + argv(2).T + ") (w_led " + w.T + ") (w_aux " + w.T + "))"}
 		case "ledger":
 			return Val{S: "Ledger", T: "(w_led " + e.world(argv(0)) + ")"}
 		case "bal":
